@@ -505,7 +505,8 @@ class Gen:
         t, cfg = self.t, self.cfg
         name = "m%d" % idx
         nparams = t.choice([0, 1, 1, 2, 2, 3])
-        pool = (PARAM_NAMES + [self.rname] * 2) if t.chance(cfg["p_shadow"]) else [p for p in PARAM_NAMES if p not in self.used_names] or PARAM_NAMES
+        # (shadowing: a parameter named like the register, like a single-qubit alias, like a let)
+        pool = (PARAM_NAMES + [self.rname] * 2 + sorted(self.singles) * 2 + sorted(self.lets)) if t.chance(cfg["p_shadow"]) else [p for p in PARAM_NAMES if p not in self.used_names] or PARAM_NAMES
         pool = list(dict.fromkeys(pool)) if not t.chance(0.5) else pool
         pnames = t.sample(pool, min(nparams, len(pool)))
         pnames = list(dict.fromkeys(pnames))
@@ -514,6 +515,10 @@ class Gen:
             kd = t.weighted([("q", 5), ("f", 3), ("i", 1.5), ("c", 1.5), ("r", 2)])
             if p in self.regs and t.chance(0.7):
                 kd = "r"  # a parameter shadowing a register name, used as a register
+            elif p in self.singles and t.chance(0.8):
+                kd = "q"  # shadowing a single-qubit alias, used as a qubit
+            elif p in self.lets and t.chance(0.8):
+                kd = "f" if isinstance(self.lets[p], float) else t.choice(["i", "c", "f"])  # shadowing a let, used as a number
             info[p] = {"kind": kd}
             if kd == "r":
                 info[p]["minsize"] = t.randint(1, 2)
@@ -597,13 +602,17 @@ class Gen:
                 pass
         # textual twins: a gate statement of a macro body repeated verbatim in the main body
         # (same text, other scope: identifiers may denote different things there)
-        if self.exec and prog["macros"] and t.chance(0.3):
+        if prog["macros"] and t.chance(0.45):
             for _ in range(2):
                 m = t.choice(prog["macros"])
+                shadowing = [m_ for m_ in prog["macros"] if any(p_ in self.singles or p_ in self.lets or p_ in self.regs for p_ in m_["params"])]
+                if shadowing and t.chance(0.7):
+                    m = t.choice(shadowing)  # a parameter there means something else outside
                 gates = [x for x in m["body"]["body"] if not (x["k"] == "gate" and x["name"] in ("prepare_all", "measure_all"))]
                 if not gates:
                     continue
-                g = copy.deepcopy(t.choice(gates))
+                sh_ = [x for x in gates if x["k"] == "gate" and any(a_[0] in ("id", "item") and a_[1] in m["params"] and (a_[1] in self.singles or a_[1] in self.lets or a_[1] in self.regs) for a_ in x["args"])]
+                g = copy.deepcopy(t.choice(sh_) if sh_ and t.chance(0.7) else t.choice(gates))
                 cand = copy.deepcopy(prog)
                 subs = [x for x in cand["body"] if x["k"] == "sub"]
 
@@ -613,14 +622,27 @@ class Gen:
                     b = x.get("body")
                     return brackets(b) if isinstance(b, dict) else any(brackets(y) for y in (b or []))
 
-                if brackets(g):
-                    # a whole subcircuit (or a loop around one) of a macro body, verbatim
+                if brackets(g) or not self.exec:
+                    # a whole subcircuit (or a loop around one) of a macro body, verbatim;
+                    # outside the executable profile any statement may stand at top level
                     cand["body"].append(g)
                 elif subs and t.chance(0.6):
                     tgt = t.choice(subs)
                     tgt["body"].insert(t.randrange(len(tgt["body"]) + 1), g)
                 else:
                     cand["body"].append({"k": "sub", "count": None, "body": [g]})
+                try:
+                    resolve(cand, None, executable=self.exec, anon=cfg["anon"])
+                    prog = cand
+                except Invalid:
+                    pass
+        # the same subcircuit written twice: an existing top-level subcircuit (or loop around
+        # one) repeated verbatim at the end of the program
+        if self.exec and t.chance(0.15):
+            groups = [x for x in prog["body"] if x["k"] in ("sub", "loop")]
+            if groups:
+                cand = copy.deepcopy(prog)
+                cand["body"].append(copy.deepcopy(t.choice(groups)))
                 try:
                     resolve(cand, None, executable=True)
                     prog = cand
